@@ -25,6 +25,10 @@ claim("C08",
       "call-graph reachability of the one engine entry from every check entry point; def-use tracing of every value stored into an Allowed response field back to the engine's decision; dominance of the 200/403 writes by the decision; loop-iteration identity of batch slot index and tuple; freshness of JSON decode targets",
       "Decides that every check transport funnels into Engine.CheckRelationTuple, reads the decision the same way, mirrors it in the status code, and keeps batch entries index-aligned and independent; does not decide equality of decoded inputs across encodings. Right level: these are wiring facts of the handlers.")
 
+claim("C06",
+      "symbolic evaluation of every SQL builder (Sprintf/Join/Builder/per-case fragments) into statement templates, instantiation, parsing, and a WHERE-tree check that nid = ? is a top-level conjunct bound to NetworkID(ctx) of the context in scope (sub-selects correlated); receiver-chain analysis that every pop statement on the relationship table is rooted at queryWithNetwork; who-may-execute-statements; statelessness of NetworkID",
+      "Decides that every statement on the relationship table is scoped by the request's network id and that names are hashed per network; does not decide contextualizer implementations or the database. Right level: network scoping is a shape fact of each statement's text and bindings.")
+
 for p in ["C04","C05","C06","C07","C08","C09","C11","C12","C13","C14","C16","C18","C19"]:
     na(p, NOTBUILT)
 na("C10", "semantic equivalence between the parser's output and TypeScript's grammar over all programs: precedence/associativity is not a code shape every correct parser shares; no sound structural necessary condition found (and the property is known to be violated: a||b&&c parses as (a||b)&&c), so a static green light would be misleading")
